@@ -89,6 +89,18 @@ CHECKS = {
     text='Round trip through text generation, lexing, compiling, unit handling and execution for generated populations of plain / multizone / matrix lights in arbitrary raw states; final device state must equal the captured state exactly.',
     design='DESIGN.md section 3, C18',
     note='State is read from the simulated lifxlan devices; names contain no double quote or line break.'),
+ 'C14': dict(
+    technique='metamorphic relation between two executions (with / without a chain of units statements) over Hypothesis-generated in-range register contents; register rewrite table checked against the documented table',
+    category='exploration',
+    text='For generated register contents on fine grids and chains of up to four transitions the transmitted colour, duration and pending delay are compared between the two runs (colour-space distance when rgb is involved); a second script prints all nine registers round one switch and the set of rewritten registers must be inside the documented set, kelvin untouched, identity switch a no-op.',
+    design='DESIGN.md section 3, C14',
+    note='Tolerances: 1 raw unit per non-rgb transition; 8/65535 per RGB channel per rgb transition (one raw unit of hue moves a channel by up to 6/65535); 1 ms for times.'),
+ 'C19': dict(
+    technique='model-based: Hypothesis-generated output statement sequences with typed values and format strings, production stdout binding captured, compared with a stdout model over the reference interpreter\'s values; program order checked by stdout length at each device command',
+    category='exploration',
+    text='Generated sequences of print / println / printf with all value kinds and field styles (anonymous, numbered incl. repeated, named, format specs), including routines that print while being evaluated as printf arguments; the exact text on sys.stdout and its interleaving with device commands are compared with the model.',
+    design='DESIGN.md section 3, C19',
+    note='A single trailing newline at the end and a space after a printf text that ends in a newline are accepted either way.'),
 }
 PENDING_REASON = 'check not built yet in this session; planned as described in DESIGN.md (property-based / fuzzing check, same runner)'
 
